@@ -150,6 +150,33 @@ class Runner:
             if v.grad is None:
                 bad.append("a view of a tensor holding a gradient read grad None under no_autodiff")
             self.check(where + " after reading a lazily derived view gradient")
+        # operands keep their gradient AND their place in the view family: a released view used as an operand stays what it was
+        vr, xb = self.vr, self.xb
+        gv = vr.grad
+        yv = vr * 2.0 + mg.sum(vr) + vr[::-1]
+        if vr.base is not xb or vr.grad is None or not np.array_equal(vr.grad, [5.0, 5.0]) or not np.shares_memory(vr.grad, xb.grad) \
+                or not np.array_equal(xb.grad, [5.0, 5.0, 2.0]):
+            bad.append("a released view used as an operand lost its base / its gradient changed")
+        del yv, gv
+        # .shape assignment is NumPy's in-place reshape of the tensor's own memory: same array object afterwards, and rejected (not
+        # silently copied) where the memory layout does not allow it
+        tb_ = mg.tensor(np.arange(6.0).reshape(2, 3))
+        tv = tb_.T                       # non-contiguous view data
+        d0 = tv.data
+        try:
+            tv.shape = (6,)
+            bad.append("shape assignment that needs a copy was accepted under no_autodiff")
+        except AttributeError:
+            pass
+        except Exception as e:
+            bad.append(f"incompatible shape assignment raised {type(e).__name__} instead of AttributeError")
+        if tv.data is not d0 or tv.shape != (3, 2):
+            bad.append("a refused shape assignment replaced the tensor's array")
+        tc = mg.tensor(np.arange(6.0))
+        d1 = tc.data
+        tc.shape = (2, 3)
+        if tc.data is not d1 or tc.shape != (2, 3) or tc.creator is not None:
+            bad.append("shape assignment did not reshape the tensor's own array in place")
         for b in bad:
             self.viol.append({"monitor": "no_autodiff", "mech": "no_autodiff:" + b, "msg": f"{where}: {b}"})
 
@@ -248,6 +275,10 @@ def run_case(case):
     (x * x).sum().backward()
     r.x = x
     r.fresh_views = [x[:2] for _ in range(12)]          # views taken under tracking whose gradient has not been read yet
+    # a view that took part in a graph which a backward pass has since cleared: it still reports its base and the view of the base's gradient
+    r.xb = mg.tensor([1.0, 2.0, 3.0])
+    r.vr = r.xb[:2]
+    ((r.vr * 3.0).sum() + (r.xb * 2.0).sum()).backward()
     r.gx = mg.tensor([1.0, 2.0])
     r.gy = r.gx * 2.0                                    # a live graph recorded outside every scope
     r.gc = mg.multiply(r.gy, 3.0, constant=True)
